@@ -272,7 +272,7 @@ Proof.
   unfold conforms. induction s using spec_ind'; intros W; cbn [wf] in W; cbn [init_val conforms_g].
   - (* real *)
     repeat (apply andb_prop in W; destruct W as [W ?]).
-    rewrite W. cbn [negb orb andb]. rewrite (fin_not_nan _ W). cbn [negb andb].
+    rewrite W. cbn [negb orb andb].
     repeat match goal with H : _ = true |- _ => rewrite H end. reflexivity.
   - repeat (apply andb_prop in W; destruct W as [W ?]).
     destruct mn, mx; cbn in *; repeat match goal with H : _ = true |- _ => rewrite H end; reflexivity.
